@@ -250,9 +250,7 @@ def rule_payload(ctx):
     scratch = Ctx(ctx.repo, "C10", ctx.tier)
     for r in ("C10.bij", "C10.desc", "C10.has", "C10.top", "C10.acc"):
         scratch.rule(r, "", 0)
-    cv = c10.Conv(scratch)
-    c10.rule_bij_desc_has(scratch, cv)
-    c10.rule_top(scratch, cv)
+    c10.rule_converter(scratch)
     ctx.adopt(scratch, {"C10.bij": "C09.payload", "C10.has": "C09.payload", "C10.top": "C09.payload"})
 
 
